@@ -1341,7 +1341,7 @@ pub fn generate<W: Write>(mode: &str, r: &mut Rng, out: &mut W) {
         let one_in = if s0 > 8192 { 1200 } else if s0 > 512 { 400 } else { 40 };
         // and bounded per process, so that a size literal in a change costs minutes at most
         static LARGE: std::sync::atomic::AtomicUsize = std::sync::atomic::AtomicUsize::new(0);
-        let budget_left = s0 <= 512 || LARGE.load(std::sync::atomic::Ordering::Relaxed) < if s0 > 8192 { 1 } else { 4 };
+        let budget_left = s0 <= 512 || LARGE.load(std::sync::atomic::Ordering::Relaxed) < if s0 > 2048 { 1 } else { 4 };
         if budget_left && r.chance(1, one_in) {
             if s0 > 512 {
                 LARGE.fetch_add(1, std::sync::atomic::Ordering::Relaxed);
